@@ -2,7 +2,7 @@
    Statements only; proofs in C16/Proofs.v.  Addresses are integers modulo 2^64. *)
 From Coq Require Import ZArith List Bool.
 Import ListNotations.
-From Cffi Require Import C16.Gen C16.Model C16.Proofs.
+From Cffi Require Import C16.Gen C16.Model C16.Proofs C16.Proofs2.
 Open Scope Z_scope.
 
 (* x[i] on an array of length n: accepted iff 0 <= i < n, at address x + i*size; anything else
@@ -190,3 +190,39 @@ Example C16_example :
     RView 2 (ptr 4104 4); RView 3 (ptr 4108 4); RInt 1; RDone; RErr IndexError])
   /\ safe_runb 4096 4 (initial 4096 4 mem 4) ops = true.
 Proof. split; vm_compute; reflexivity. Qed.
+
+(* ---- pointer difference p - q on the arithmetic of cdata_sub AS IT IS IN THE SOURCE NOW: C16/Gen.v
+   gen_sub_prog is regenerated on every run (the `if (itemsize > 1)` guard, and for the `diff % itemsize`
+   test and the `diff / itemsize` division whether the operands are the declared Py_ssize_t — C's signed
+   semantics, truncation toward zero: Z.rem / Z.quot — or cast to size_t); Model.sub_arith interprets it.
+   to_ssize (c_data v - c_data w) is the signed byte distance.  An edit of the test or of the division
+   (seed C16-c: the test on size_t casts) makes these proofs fail. *)
+Theorem C16_ptr_sub_exact : forall v w o k, c_kind v = KPtr o -> 0 < c_isz w ->
+  (ptr_sub v w = Ok k <-> to_ssize (c_data v - c_data w) = k * c_isz w).
+Proof. exact ptr_sub_exact. Qed.
+Print Assumptions C16_ptr_sub_exact.
+
+Theorem C16_ptr_sub_valueerror_iff_not_multiple : forall v w o, c_kind v = KPtr o -> 0 < c_isz w ->
+  (ptr_sub v w = Err ValueError <-> ~ exists k, to_ssize (c_data v - c_data w) = k * c_isz w).
+Proof. exact ptr_sub_valueerror. Qed.
+Print Assumptions C16_ptr_sub_valueerror_iff_not_multiple.
+
+Theorem C16_ptr_sub_total : forall v w o, c_kind v = KPtr o -> 0 < c_isz w ->
+  (exists k, ptr_sub v w = Ok k) \/ ptr_sub v w = Err ValueError.
+Proof. exact ptr_sub_total. Qed.
+Print Assumptions C16_ptr_sub_total.
+
+Theorem C16_ptr_sub_voidp : forall v w o, c_kind v = KPtr o -> c_isz w <= 0 -> c_voidp w = true ->
+  ptr_sub v w = Ok (to_ssize (c_data v - c_data w)).
+Proof. exact ptr_sub_voidp. Qed.
+Print Assumptions C16_ptr_sub_voidp.
+
+(* non-vacuity, negative k: struct of 3 bytes, q 15 bytes after p: p - q = -5, q - p = 5; 14 bytes apart:
+   ValueError both ways.  And the teeth: with the remainder test done on size_t casts (what the translator
+   produces for seed C16-c) the exact multiple -15 is rejected, because 2^64 - 15 is not a multiple of 3 *)
+Example C16_ptr_sub_example :
+  ptr_sub (ptr 4096 3) (ptr 4111 3) = Ok (-5) /\ ptr_sub (ptr 4111 3) (ptr 4096 3) = Ok 5 /\
+  ptr_sub (ptr 4096 3) (ptr 4110 3) = Err ValueError /\ ptr_sub (ptr 4110 3) (ptr 4096 3) = Err ValueError /\
+  ptr_sub (ptr 16 8) (ptr (2 ^ 64 - 16) 8) = Ok 4 /\
+  sub_arith {| sp_guard_gt := 1; sp_mod_cast := CUnsigned; sp_div_cast := CSigned |} (-15) 3 = Err ValueError.
+Proof. vm_compute. repeat split; reflexivity. Qed.
